@@ -330,8 +330,11 @@ impl<'a> Exec<'a> {
         if o.min_count > t.n() {
             return Err(Stop::Invalid("threshold above sample count".into()));
         }
-        if o.ambig_missing && o.min_count == 0 {
-            return Err(Stop::Invalid("ambig-as-missing with threshold 0 is undocumented".into()));
+        if o.ambig_missing && o.min_count == 0 && (o.filter != SiteFilter::NoFilter || o.ambig_mask || o.no_gap_only) {
+            // (with a site filter or mask the documentation does not say whether rows holding only
+            // ambiguity codes go; alone, "--filter-ambig-as-missing" with no frequency threshold has
+            // nothing to count, and nothing is filtered)
+            return Err(Stop::Invalid("ambig-as-missing with threshold 0 next to another filter is undocumented".into()));
         }
         if o.no_gap_only && o.filter != SiteFilter::NoConst {
             return Err(Stop::Invalid("no-gap-only-sites only documented with no-const".into()));
@@ -891,15 +894,22 @@ fn gen_weedopts(rng: &mut Rng, n: usize, weeds: &[String], filters: bool) -> Wee
     let js: Vec<usize> = (0..=n).filter(|j| exact_freq(*j, n).is_some()).collect();
     let min_count = *rng.pick(&js);
     let filter = SiteFilter::ALL[rng.below(4)];
-    WeedOpts {
+    let mut o = WeedOpts {
         weed,
         reverse: rng.chance(25),
         min_count,
-        ambig_missing: min_count >= 1 && rng.chance(50),
+        ambig_missing: if min_count >= 1 { rng.chance(50) } else { rng.chance(15) },
         filter,
         ambig_mask: rng.chance(30),
         no_gap_only: filter == SiteFilter::NoConst && rng.chance(40),
+    };
+    if o.min_count == 0 && o.ambig_missing {
+        // the flag on its own: no threshold to apply it to, so nothing is filtered
+        o.filter = SiteFilter::NoFilter;
+        o.ambig_mask = false;
+        o.no_gap_only = false;
     }
+    o
 }
 
 fn gen_observers(rng: &mut Rng, n: usize, names: &[String], weeds: &[String], count: usize) -> Vec<Observer> {
@@ -1118,7 +1128,8 @@ impl StoreWorkload {
                     // names in any order, not only the file's column order
                     rng.shuffle(&mut del);
                     let out = match rng.below(10) {
-                        0..=4 => Some(newname("d")),
+                        0..=3 => Some(newname("d")),
+                        4 => Some(format!("{}.v{}", newname("d"), rng.range(1, 9))), // a dot in the prefix
                         5 => Some(cur.clone()), // -o naming the input itself
                         _ => None,
                     };
